@@ -93,12 +93,20 @@ func Sync(logger *log.Logger, oldVersion string, newVersion string, dryRun bool)
 	bufferedReader = bufio.NewReader(io.TeeReader(resp.Body, bar))
 
 	var syncHeader syncHeader
-	jsonBytes, _ := bufferedReader.ReadSlice('\n')
+	jsonBytes, err := bufferedReader.ReadSlice('\n')
+	if err != nil {
+		return fmt.Errorf("incomplete .sync file: %w", err)
+	}
 
-	json.Unmarshal(jsonBytes, &syncHeader)
+	if err = json.Unmarshal(jsonBytes, &syncHeader); err != nil {
+		return fmt.Errorf("malformed .sync file: %w", err)
+	}
 
-	blocks := deserializeSyncBlocks(syncHeader.NumBlocks, bufferedReader)
+	blocks, err := readSyncBlocks(syncHeader.NumBlocks, bufferedReader)
 	bar.Close()
+	if err != nil {
+		return fmt.Errorf("incomplete .sync file: %w", err)
+	}
 
 	ctx := context.Background()
 
